@@ -12,6 +12,7 @@ import (
 	"bytes"
 	"fmt"
 	"math/rand"
+	"os"
 	"strings"
 	"sync"
 	"sync/atomic"
@@ -178,6 +179,20 @@ func runHistory(rec *vr.Rec, c hcase) {
 	if st := p.Storm(); st != nil {
 		rec.Note("message storm safety valve hit")
 	}
+	if g := p.WireGarbage(); len(g) > 0 {
+		rec.Violation("C12/"+c.Kind+"/wire/endpoint-emitted-non-coap-bytes", fmt.Sprintf("a real endpoint emitted %d datagram(s) that are not CoAP messages (0xdb.. is the poison written into the buffers of a released message: something kept bytes of a message beyond its release): %v", len(g), g), c)
+	}
+	for cl, n := range p.ErrClasses() {
+		if os.Getenv("VERIF_C12_ERRS") != "" {
+			fmt.Printf("ERRCLASS %d %s\n", n, cl)
+		}
+		// an endpoint found bytes in its own response cache that are not a message: the cache can only hold what the
+		// endpoint itself marshalled, so something kept the encode buffer of a message beyond the message's release
+		if strings.Contains(cl, "cannot unmarshal response from cache") {
+			rec.Violation("C12/"+c.Kind+"/response-cache-holds-bytes-of-a-released-message", fmt.Sprintf("%d x %s", n, cl), c)
+		}
+	}
+	rec.Count("datagrams_checked_against_reference_parser", p.Units.Load())
 }
 
 func TestRun(t *testing.T) {
